@@ -195,6 +195,20 @@ def run_property(prop, tier, seed, replay=None):
             p = core.write_replay(prop.id, seed, "oracle", small, r2[0],
                                   "the implementation's answers violate the property's spec oracle")
             violations.append((p, ""))
+        # the same for disagreements between model and implementation: one that does not repeat when the case is run on
+        # its own (a node that did not come up, an actor system lost under load) is inconclusive, not a broken correspondence
+        confirmed_corr = []
+        for mr_, c, r_orig in pending_corr:
+            if len(confirmed_corr) < 4:
+                rr, _ = core.run_cases(mr_.model, [c], mr_.impl_env, mr_.spec_needs_impl)
+                if core.judge(rr[0])[0]:
+                    notes.append(f"note: inconclusive - case {c.name} disagreed with the model once and agreed when run again on its own")
+                    disagreements -= 1
+                    continue
+                confirmed_corr.append((mr_, c, rr[0]))
+            else:
+                confirmed_corr.append((mr_, c, r_orig))
+        pending_corr = confirmed_corr
         for mr_, c, r_orig in pending_corr[: (2 if pending_oracle else 4)]:
             small = core.shrink(mr_.model, c, lambda j: not j[0], mr_.impl_env, mr_.spec_needs_impl) if mr_.shrinkable else c
             if small is c:
